@@ -20,6 +20,17 @@ static int ceil_log2(unsigned long n) {
   return k;
 }
 
+// after shrink_to_fit the block the vector holds must really have capacity() slots: rewriting the capacity word alone reduces nothing
+template <class V>
+static void check_block_matches_capacity(const V &v, bool inl, const char *when) {
+  if (!alloc_on_ledger<typename V::allocator_type>::value || inl || v.capacity() == 0) return;
+  AllocEntry *en = aledger_find(v.data());
+  // the ledger counts elements for the std-like allocators and bytes for the amc::allocator-like one: compare bytes
+  const size_t block_bytes = en ? en->count * en->esize : 0, want = static_cast<size_t>(v.capacity()) * sizeof(typename V::value_type);
+  if (en && en->live == 1 && block_bytes != want)
+    violation(P18, "%s: capacity() is %lu (%lu bytes) but the heap block still has %lu bytes", when, (unsigned long)v.capacity(), (unsigned long)want, (unsigned long)block_bytes);
+}
+
 // start: 0 empty, 1 inline/partially filled (k elements), 2 after reserve(r), 3 after shrink_to_fit
 template <class V>
 static void grow_case(const char *name, int start, long k, long n) {
@@ -127,6 +138,7 @@ static void reserve_case(const char *name, long k, long r) {
       if (N > 0 && size <= N && !inl) violation(P18, "shrink_to_fit with size %ld <= N=%ld does not come back to the inline storage", size, N);
       if (alloc_on_ledger<typename V::allocator_type>::value && ((N > 0 && size <= N) || size == 0) && aledger().outstanding != 0)
         violation(P18, "shrink_to_fit with size %ld (N=%ld) keeps %u heap block(s)", size, N, aledger().outstanding);
+      check_block_matches_capacity(v, inl, "after reserve and shrink_to_fit");
     }
     if (static_cast<long>(v.size()) != k) violation(P18, "size changed");
     } catch (const std::exception &e) {
@@ -235,6 +247,7 @@ struct StealCase<V, true> {
       const char *b = reinterpret_cast<const char *>(&v), *q = reinterpret_cast<const char *>(v.data());
       const bool inl = q >= b && q < b + sizeof(V);
       if (size <= N && !inl) violation(P18, "shrink_to_fit with size %ld <= N=%ld after taking over a vector's buffer does not come back to the inline storage", size, N);
+      check_block_matches_capacity(v, inl, "shrink_to_fit after taking over a vector's buffer");
       src.clear();
       src.shrink_to_fit();
       if (alloc_on_ledger<typename V::allocator_type>::value && size <= N && aledger().outstanding != 0)
